@@ -153,8 +153,8 @@ def run_ref_model(model, files, limit, globals0):
         res = ('runtime-error', e.message)
     except jumpvm.interp.RefRuntimeError as e:
         res = ('runtime-error', 'Undefined function "%s"' % e.name)
-    except RecursionError:
-        res = ('recursion', None)
+    except (RecursionError, jumpvm.interp.Indeterminate):
+        res = ('recursion', None)      # host recursion limit / an unspecified library result: the case is discarded
     return res, logs, vm.count, g
 
 
